@@ -100,6 +100,19 @@ func (g *gen) history(nFeeds, nTrips int) []*gtfs.Realtime {
 				tt.assigned = true
 			}
 			trip := gtfs.Trip{ID: tt.id, IsEntityInMessage: true}
+			if g.coin(0.15) {
+				// the same start instant as another Go value: shown in another Location (a freshly made one), or split differently
+				// between date and time of day; it is still the same trip
+				switch g.r.Intn(3) {
+				case 0:
+					trip.ID.StartDate = tt.id.StartDate.In(time.FixedZone("", -5*3600))
+				case 1:
+					trip.ID.StartDate = tt.id.StartDate.UTC()
+				default:
+					trip.ID.StartDate = tt.id.StartDate.Add(-5 * time.Hour).UTC()
+					trip.ID.StartTime = tt.id.StartTime + 5*time.Hour
+				}
+			}
 			if tt.assigned && g.coin(0.85) {
 				v := &gtfs.Vehicle{}
 				if g.coin(0.95) {
